@@ -93,6 +93,7 @@ pub unsafe fn reset() {
     CHILD_STEPS = 0;
     CHILD_FAIL_AT = 0;
     CHILD_FAILED = false;
+    KERNEL_REFUSED = false;
     CHILD_FAILED_STEP = 0;
     STEPS_SEEN = 0;
     RUID = 0;
@@ -107,6 +108,13 @@ pub unsafe fn reset() {
     EXEC_ATTEMPTS = 0;
     EXEC_VERDICT = [0; NEXEC];
     EXEC_STARTED = false;
+    EXEC_FAILED_ONCE = false;
+    EXPECT_REPORT = 0;
+    EXP_ARGV_SET = false;
+    EXP_PATH_SET = false;
+    EXP_ENV_MODE = 0;
+    EXP_CWD_MODE = 0;
+    EXP_ID_SET = false;
     EXPECT_FD_SET = false;
     STATUS_WRITTEN_LEN = 0;
     EXITED_WITH = -1;
@@ -231,14 +239,33 @@ pub unsafe fn child_step_fails(s: Step) -> bool {
     if !IN_CHILD {
         return false;
     }
+    // C07 quantifies over chdir, dup2, setuid, setgid, setpgid and exec;
+    // sigemptyset/pthread_sigmask/signal with valid arguments cannot fail and
+    // are not injected.
+    match s {
+        Step::SigEmpty | Step::SigMask | Step::Signal => return false,
+        _ => (),
+    }
     CHILD_STEPS += 1;
     if CHILD_FAIL_AT != 0 && CHILD_STEPS == CHILD_FAIL_AT {
         CHILD_FAILED = true;
         CHILD_FAILED_STEP = s as u8;
         ERRNO = CHILD_FAIL_ERRNO;
+        EXPECT_REPORT = CHILD_FAIL_ERRNO;
         return true;
     }
     false
+}
+
+/// The model kernel itself refuses a child-side step (e.g. EPERM): a real failure of the launch.
+pub static mut KERNEL_REFUSED: bool = false;
+pub unsafe fn child_kernel_refusal(e: c_int) -> c_int {
+    if IN_CHILD {
+        CHILD_FAILED = true;
+        KERNEL_REFUSED = true;
+        EXPECT_REPORT = e;
+    }
+    fail(e)
 }
 
 // credentials
@@ -266,7 +293,7 @@ pub unsafe extern "C" fn setuid(uid: libc::uid_t) -> c_int {
         EUID = uid;
         0
     } else {
-        fail(libc::EPERM)
+        child_kernel_refusal(libc::EPERM)
     }
 }
 
@@ -286,7 +313,7 @@ pub unsafe extern "C" fn setgid(gid: libc::gid_t) -> c_int {
         EGID = gid;
         0
     } else {
-        fail(libc::EPERM)
+        child_kernel_refusal(libc::EPERM)
     }
 }
 
@@ -344,6 +371,7 @@ pub static mut EXEC_PATH: [[u8; PATHMAX]; NEXEC] = [[0; PATHMAX]; NEXEC];
 pub static mut EXEC_PATH_LEN: [usize; NEXEC] = [0; NEXEC];
 pub static mut EXEC_PATH_PTR: [usize; NEXEC] = [0; NEXEC];
 pub static mut EXEC_STARTED: bool = false;
+pub static mut EXEC_FAILED_ONCE: bool = false;
 /// whether the started exec call was execve (explicit environment)
 pub static mut EXEC_WITH_ENV: bool = false;
 pub static mut EXEC_ARGV: *const *const c_char = core::ptr::null();
@@ -385,6 +413,8 @@ unsafe fn exec_common(path: *const c_char, argv: *const *const c_char, envp: *co
     };
     if verdict != 0 {
         ERRNO = verdict;
+        EXPECT_REPORT = verdict;
+        EXEC_FAILED_ONCE = true;
         return -1;
     }
     // The program image starts here: the child's descriptor table, signal
@@ -414,8 +444,133 @@ pub unsafe extern "C" fn execve(path: *const c_char, argv: *const *const c_char,
 pub static mut EXPECT_FD: [Obj; 3] = [Obj::Closed; 3];
 pub static mut EXPECT_FD_SET: bool = false;
 
+// ---- expectations for C06 (set by the harness from its own copy of the request)
+pub const AMAX: usize = 4; // max strings
+pub const SMAX: usize = 6; // max bytes per string
+pub static mut EXP_ARGV_SET: bool = false;
+pub static mut EXP_ARGC: usize = 0;
+pub static mut EXP_ARGV: [[u8; SMAX]; AMAX] = [[0; SMAX]; AMAX];
+pub static mut EXP_ARGV_LEN: [usize; AMAX] = [0; AMAX];
+pub static mut EXP_PATH_SET: bool = false;
+pub static mut EXP_PATH: [u8; SMAX] = [0; SMAX];
+pub static mut EXP_PATH_LEN: usize = 0;
+/// 0 = not checked, 1 = environment must be inherited (execv), 2 = explicit
+pub static mut EXP_ENV_MODE: u8 = 0;
+pub static mut EXP_ENVC: usize = 0;
+pub static mut EXP_ENV: [[u8; SMAX]; AMAX] = [[0; SMAX]; AMAX];
+pub static mut EXP_ENV_LEN: [usize; AMAX] = [0; AMAX];
+pub static mut EXP_CWD_MODE: u8 = 0; // 0 unchecked, 1 must not chdir, 2 must be EXP_CWD
+pub static mut EXP_CWD: [u8; CWDMAX] = [0; CWDMAX];
+pub static mut EXP_CWD_LEN: usize = 0;
+pub static mut EXP_ID_SET: bool = false;
+pub static mut EXP_UID: Option<u32> = None;
+pub static mut EXP_GID: Option<u32> = None;
+pub static mut EXP_PGID: bool = false;
+
+/// does the C string at `p` equal bytes[..len] (and end there)?
+pub unsafe fn cstr_eq(p: *const c_char, bytes: &[u8; SMAX], len: usize) -> bool {
+    if p.is_null() {
+        return false;
+    }
+    let mut i = 0;
+    while i < SMAX {
+        let b = *p.add(i) as u8;
+        if i == len {
+            return b == 0;
+        }
+        if b != bytes[i] || b == 0 {
+            return false;
+        }
+        i += 1;
+    }
+    false
+}
+
+pub unsafe fn c06_checks() {
+    if EXP_ARGV_SET {
+        let mut i = 0;
+        while i < AMAX {
+            if i < EXP_ARGC {
+                let ok = cstr_eq(*EXEC_ARGV.add(i), &EXP_ARGV[i], EXP_ARGV_LEN[i]);
+                vcheck!(C06, ok, "C06/argv-bytes: an argument seen by the child differs from the one given (or is not NUL-terminated where it should be)");
+            }
+            i += 1;
+        }
+        vcheck!(C06, (*EXEC_ARGV.add(EXP_ARGC)).is_null(), "C06/argv-count: the child's argument vector does not end after the given arguments");
+    }
+    if EXP_PATH_SET {
+        let k = EXEC_ATTEMPTS - 1;
+        let mut same = EXEC_PATH_LEN[k] == EXP_PATH_LEN;
+        let mut i = 0;
+        while i < SMAX {
+            if i < EXP_PATH_LEN && EXEC_PATH[k][i] != EXP_PATH[i] {
+                same = false;
+            }
+            i += 1;
+        }
+        vcheck!(C06, same, "C06/program: the program image started is not the requested executable");
+    }
+    if EXP_ENV_MODE == 1 {
+        vcheck!(C06, !EXEC_WITH_ENV, "C06/env-inherit: environment unspecified but an explicit environment was passed to exec");
+    }
+    if EXP_ENV_MODE == 2 {
+        vcheck!(C06, EXEC_WITH_ENV, "C06/env-explicit: an explicit environment was requested but exec inherits the parent's");
+        if EXEC_WITH_ENV {
+            // count entries
+            let mut n = 0;
+            while n < AMAX + 1 && !(*EXEC_ENVP.add(n)).is_null() {
+                n += 1;
+            }
+            vcheck!(C06, n == EXP_ENVC, "C06/env-count: the child's environment has a different number of entries than distinct names requested (a duplicate survived or a variable was lost)");
+            let mut j = 0;
+            while j < AMAX {
+                if j < EXP_ENVC {
+                    let mut hits = 0;
+                    let mut i = 0;
+                    while i < AMAX {
+                        if i < n && cstr_eq(*EXEC_ENVP.add(i), &EXP_ENV[j], EXP_ENV_LEN[j]) {
+                            hits += 1;
+                        }
+                        i += 1;
+                    }
+                    vcheck!(C06, hits == 1, "C06/env-entry: a requested NAME=value (last value per name) is not present exactly once in the child's environment");
+                }
+                j += 1;
+            }
+        }
+    }
+    if EXP_CWD_MODE == 1 {
+        vcheck!(C06, !CWD_SET, "C06/cwd-inherit: working directory changed although none was requested");
+    }
+    if EXP_CWD_MODE == 2 {
+        let mut same = CWD_SET && CWD_LEN == EXP_CWD_LEN;
+        let mut i = 0;
+        while i < CWDMAX {
+            if i < EXP_CWD_LEN && CWD[i] != EXP_CWD[i] {
+                same = false;
+            }
+            i += 1;
+        }
+        vcheck!(C06, same, "C06/cwd: the child's working directory at exec is not the requested one");
+    }
+    if EXP_ID_SET {
+        if let Some(u) = EXP_UID {
+            vcheck!(C06, RUID == u && EUID == u, "C06/uid: the child does not run with the requested user id at exec");
+        } else {
+            vcheck!(C06, RUID == 0 && EUID == 0, "C06/uid-unchanged: user id changed although not requested");
+        }
+        if let Some(g) = EXP_GID {
+            vcheck!(C06, RGID == g && EGID == g, "C06/gid: the child does not run with the requested group id at exec");
+        } else {
+            vcheck!(C06, RGID == 0 && EGID == 0, "C06/gid-unchanged: group id changed although not requested");
+        }
+        vcheck!(C06, PGID_IS_SELF == EXP_PGID, "C06/pgid: fresh process group iff requested");
+    }
+}
+
 /// Generic exec-time assertions shared by all spawn harnesses.
 pub unsafe fn exec_time_checks() {
+    c06_checks();
     // ---- C05: wiring
     if EXPECT_FD_SET {
         vcheck!(C05, FDT[0].obj == EXPECT_FD[0], "C05/child-stdin: child's fd 0 is not the requested object at exec");
@@ -431,14 +586,13 @@ pub unsafe fn exec_time_checks() {
         let mut i = 3;
         while i < NFD {
             let e = FDT[i];
-            if e.obj != Obj::Closed && !e.cloexec {
-                let leaked_pipe = match e.obj {
-                    Obj::PipeR(_) | Obj::PipeW(_) => true,
-                    _ => false,
-                };
-                vcheck!(C08, !leaked_pipe, "C08/no-pipe-end-survives-exec: a library pipe end above fd 2 is inherited by the child program");
-                vcheck!(C13, !leaked_pipe, "C13/no-extra-pipe-end: a pipeline pipe end above fd 2 is inherited by a stage");
-            }
+            let is_pipe = match e.obj {
+                Obj::PipeR(_) | Obj::PipeW(_) => true,
+                _ => false,
+            };
+            let leaked_pipe = is_pipe && !e.cloexec;
+            vcheck!(C08, !leaked_pipe, "C08/no-pipe-end-survives-exec: a library pipe end above fd 2 is inherited by the child program");
+            vcheck!(C13, !leaked_pipe, "C13/no-extra-pipe-end: a pipeline pipe end above fd 2 is inherited by a stage");
             i += 1;
         }
     }
@@ -453,6 +607,9 @@ pub unsafe fn exec_time_checks() {
 
 // ----------------------------------------------------------- _exit --------
 
+/// errno the child is expected to report: the injected errno of the failed
+/// step, or the errno of the last failed exec attempt
+pub static mut EXPECT_REPORT: c_int = 0;
 pub static mut STATUS_WRITTEN: [u8; 8] = [0; 8];
 pub static mut STATUS_WRITTEN_LEN: usize = 0;
 pub static mut EXITED_WITH: c_int = -1;
@@ -464,6 +621,26 @@ pub unsafe extern "C" fn _exit(status: c_int) -> ! {
     on_syscall();
     vmodel!(IN_CHILD, "MODEL/_exit: _exit called outside the forked child");
     EXITED_WITH = status;
+    kani::cover!(CHILD_FAILED, "COVER/child-step-failed");
+    vcheck!(C06, !(KERNEL_REFUSED && EXP_ID_SET && CHILD_FAIL_AT == 0), "C06/identity-applied: a root parent requested user id and group id but the launch failed with EPERM (the identity changes were issued in an order the kernel refuses)");
+    kani::cover!(EXEC_FAILED_ONCE && !CHILD_FAILED, "COVER/child-exec-failed");
+    vcheck!(C07, CHILD_FAILED || EXEC_FAILED_ONCE, "C07/child-exits-only-on-failure: the forked child exited although no step failed");
+    vcheck!(C07, status == 127, "C07/child-exit-127: the child of a failed launch does not _exit(127)");
+    {
+        let v = EXPECT_REPORT as u32;
+        let ok = STATUS_WRITTEN_LEN == 4
+            && STATUS_WRITTEN[0] == v as u8
+            && STATUS_WRITTEN[1] == (v >> 8) as u8
+            && STATUS_WRITTEN[2] == (v >> 16) as u8
+            && STATUS_WRITTEN[3] == (v >> 24) as u8;
+        vcheck!(C07, ok, "C07/child-reports-errno: the child did not report exactly the 4 little-endian bytes of the failing step's errno");
+        vcheck!(C15, !EXEC_FAILED_ONCE || CHILD_FAILED || ok, "C15/launch-fails-with-os-error: when no candidate starts the launch must fail with the error of a candidate");
+    }
+    let status_w_open = match STATUS_PIPE {
+        Some(sp) => count_obj(Obj::PipeW(sp)) != 0,
+        None => true,
+    };
+    vcheck!(C07, status_w_open, "C07/report-channel-open: the status channel was closed before the report");
     vcheck!(C17, ALLOCS == ALLOC_AT_FORK, "C17/no-alloc-before-exit: heap allocation in the child between fork and _exit");
     if let Some(f) = AT_EXIT {
         f();
